@@ -314,6 +314,9 @@ def run(chk, repo):
     chk.rule('C11.j', 'R-ORDER: Sec positions attached to the transcript sequence are sorted in transcript order', 1)
     chk.clauses.append('C11.j the Sec positions attached to a transcript sequence are sorted after the strand-dependent coordinate conversion')
     sorted_before_use(chk, repo, 'C11.j', 'gtf.TranscriptAnnotationModel:TranscriptAnnotationModel.get_transcript_sequence', 'DNASeqRecordWithCoordinates', 'selenocysteine', 'the converted Sec positions are in genomic order, which is descending transcript order on the - strand; PVGNode.fix_selenocysteines and the Sec truncation consume them in ascending order (a - strand transcript with two Sec codons is translated wrongly)')
+    from rules.shared import memo_params
+    chk.clauses.append('C11.k no look-up of the annotation is served from a cache keyed by a lossy projection of its arguments')
+    memo_params(chk, repo, 'C11.k', ['gtf.GenomicAnnotation:GenomicAnnotation.', 'gtf.GenomicAnnotationOnDisk:GenomicAnnotationOnDisk.', 'gtf.TranscriptAnnotationModel:', 'gtf.GTFPointer:'], floor=0)
 
 def exon_loop_inverse(chk, repo, rid):
     """E8: per-iteration affine summaries of the two exon loops, decided over cone domains (see sa/loops.py)"""
